@@ -154,9 +154,9 @@ def c09(tier, seed):
     out.append(_c('shrink-memb-guard', 'memb', 'plain', 'resize', 'C09',
                   ['--rounds=%d' % (60 * s), '--res-calls=40', '--res=1', '--walk=3', '--cont=0', '--upd=1', '--walk-delay=0.05',
                    '--alloc=1', '--hook-prob=0', '--tun-commit-order=2', '--tun-part-order=3'], scale=s))
-    out.append(_c('big-memb', 'memb', 'plain', 'big', 'C09', ['--rounds=%d' % (9 * s), '--res-calls=10', '--res=2', '--upd=2',
+    out.append(_c('big-memb', 'memb', 'plain', 'big', 'C09', ['--rounds=%d' % (20 * s), '--res-calls=10', '--res=2', '--upd=2',
                                                               '--resident=1', '--walk=1'], cpus=8, scale=s))
-    out.append(_c('big-qsbr', 'qsbr', 'plain', 'big', 'C09', ['--rounds=%d' % (6 * s), '--res-calls=8', '--res=1', '--upd=2',
+    out.append(_c('big-qsbr', 'qsbr', 'plain', 'big', 'C09', ['--rounds=%d' % (14 * s), '--res-calls=8', '--res=1', '--upd=2',
                                                               '--resident=1', '--walk=1'], cpus=8, scale=s))
     for fl, var, rounds in (('memb', 'plain', 300), ('qsbr', 'plain', 150), ('memb', 'asan', 120)):
         out.append(_c('destroy-%s%s' % (fl, '' if var == 'plain' else '-' + var), fl, var, 'destroy', 'C09',
